@@ -235,7 +235,12 @@ static std::string s10_b() { return schema_private("token", "12ab"); }
 static std::string s11_a() { return regex_body("\\p{Lu}+x", "i", {"ABx", "abX", "1x"}); }
 static std::string s11_b() { return regex_body("[\\p{Lu}]y", "i", {"Ay", "ay", "1y"}); }
 
+// complement-of-block escapes used as atoms refer to process-wide shared range tokens directly
+static std::string s12_a() { return regex_body("\\P{IsGreek}x", "X", {"ax", "x", "1x"}); }
+static std::string s12_b() { return regex_body("\\P{IsGreek}y|\\P{IsThai}+z", "X", {"ay", "bbz", "z"}); }
+
 static std::vector<Scenario> SCENARIOS = {
+    {"regex-negated-blocks", "two threads match with the same shared \\P{IsBlock} token for the first time", {s12_a, s12_b}, false},
     {"regex-icase-categories", "two threads compile case-insensitive expressions over the same shared category token", {s11_a, s11_b}, false},
     {"named-transcoders", "first use of named transcoders (service mapping, ICU converters), decode and encode", {s9_a, s9_b}, false},
     {"private-schema-build", "two private parsers each build a schema grammar with a pattern facet and validate", {s10_a, s10_b}, false},
